@@ -1,69 +1,220 @@
-//! Huffman per RFC 8878 section 4.2: weights -> code lengths -> canonical codes; descriptions; stream encoder.
-use crate::bits::BackBits;
+//! Huffman coding per RFC 8878 section 4.2: weights -> code lengths -> canonical codes / decode table;
+//! weight descriptions (direct and FSE-compressed), writer and strict parser; stream encoder and decoder.
+use crate::bits::{BackBits, BackReader};
 use crate::fse;
 
-/// weights for symbols 0..n (all of them, including the last one). Returns (max_bits, nbits per symbol) or None if not a complete code.
+/// weights of all symbols (including the last). (max_bits, nbits per symbol) or None if not a complete code
+/// of depth <= 11.
 pub fn lengths_from_weights(weights: &[u8]) -> Option<(u8, Vec<u8>)> {
+    if weights.iter().any(|&w| w > 12) {
+        return None;
+    }
     let sum: u32 = weights.iter().map(|&w| if w > 0 { 1u32 << (w - 1) } else { 0 }).sum();
-    if sum == 0 || !sum.is_power_of_two() { return None; }
-    let max_bits = sum.trailing_zeros() as u8; // sum == 2^max_bits
-    if max_bits > 11 { return None; }
+    if sum == 0 || !sum.is_power_of_two() {
+        return None;
+    }
+    let max_bits = sum.trailing_zeros() as u8;
+    if max_bits > 11 || max_bits == 0 {
+        return None;
+    }
     Some((max_bits, weights.iter().map(|&w| if w > 0 { max_bits + 1 - w } else { 0 }).collect()))
 }
 
-/// Given the weights of all symbols but the last, the implied last weight (spec: completes to the next power of two)
+/// Given the weights of all symbols but the last, the implied last weight (completes the sum to the next
+/// power of two), or None if the gap is not a power of two.
 pub fn implied_last_weight(head: &[u8]) -> Option<u8> {
+    if head.iter().any(|&w| w > 11) {
+        return None;
+    }
     let sum: u32 = head.iter().map(|&w| if w > 0 { 1u32 << (w - 1) } else { 0 }).sum();
-    if sum == 0 { return None; }
-    let next = (sum + 1).next_power_of_two(); // strictly greater than sum
+    if sum == 0 {
+        return None;
+    }
+    let next = (sum + 1).next_power_of_two();
     let left = next - sum;
-    if !left.is_power_of_two() { return None; }
+    if !left.is_power_of_two() {
+        return None;
+    }
     Some(left.trailing_zeros() as u8 + 1)
 }
 
-/// Canonical codes as the decoder sees them: value of the code when read MSB-first, for each symbol with nbits>0.
-/// Spec: symbols sorted by (weight ascending, symbol ascending) receive increasing codes starting from 0 at the longest length.
+/// Full weight vector (with implied last weight) of a description head, if it forms a valid table.
+pub fn complete(head: &[u8]) -> Option<Vec<u8>> {
+    if head.is_empty() || head.len() > 255 {
+        return None;
+    }
+    let last = implied_last_weight(head)?;
+    let mut w = head.to_vec();
+    w.push(last);
+    lengths_from_weights(&w)?;
+    Some(w)
+}
+
+/// Canonical decode table: 2^max_bits entries of (symbol, nbits), filled in order of increasing weight, then
+/// increasing symbol value.
+pub fn decode_table(weights: &[u8]) -> Option<(u8, Vec<(u8, u8)>)> {
+    let (max_bits, nb) = lengths_from_weights(weights)?;
+    let mut t = Vec::with_capacity(1 << max_bits);
+    for w in 1..=max_bits {
+        for (s, &ws) in weights.iter().enumerate() {
+            if ws == w {
+                for _ in 0..(1u32 << (w - 1)) {
+                    t.push((s as u8, nb[s]));
+                }
+            }
+        }
+    }
+    assert_eq!(t.len(), 1 << max_bits);
+    Some((max_bits, t))
+}
+
+/// Code (as read MSB-first) and length of each symbol.
 pub fn codes(weights: &[u8]) -> Vec<(u16, u8)> {
-    let (max_bits, nb) = lengths_from_weights(weights).expect("complete code");
+    let (max_bits, t) = decode_table(weights).expect("complete code");
     let mut out = vec![(0u16, 0u8); weights.len()];
-    // decode table position approach: fill a 2^max_bits table in order weight 1.., symbol ascending; code = pos >> (max_bits - nbits)
-    let mut pos: u32 = 0;
-    for w in 1..=max_bits + 1 { for (s, &ws) in weights.iter().enumerate() { if ws == w { let nbits = nb[s]; let span = 1u32 << (max_bits - nbits); out[s] = ((pos >> (max_bits - nbits)) as u16, nbits); pos += span; } } }
-    assert_eq!(pos, 1 << max_bits);
+    let mut seen = vec![false; weights.len()];
+    for (pos, &(s, n)) in t.iter().enumerate() {
+        if !seen[s as usize] {
+            seen[s as usize] = true;
+            out[s as usize] = ((pos >> (max_bits - n)) as u16, n);
+        }
+    }
     out
 }
 
 pub fn encode_stream(cs: &[(u16, u8)], lits: &[u8]) -> Vec<u8> {
     let mut b = BackBits::new();
-    // decoder reads symbols first to last? No: Huffman streams are decoded from the end of the bitstream yielding literals in order,
-    // so the first literal's code is read first.
-    for &l in lits { let (c, n) = cs[l as usize]; assert!(n > 0, "literal {l} has no code"); b.push(c as u64, n as u32); }
+    for &l in lits {
+        let (c, n) = cs[l as usize];
+        assert!(n > 0, "literal {l} has no code");
+        b.push(c as u64, n as u32);
+    }
     b.finish()
 }
 
-/// Direct description: header byte 127+n, then n weights as nibbles (first weight in the high nibble)
+/// Strict stream decoder: exactly `count` symbols, consuming exactly all bits.
+pub fn decode_stream(weights: &[u8], src: &[u8], count: usize) -> Result<Vec<u8>, String> {
+    let (max_bits, t) = decode_table(weights).ok_or("invalid weights")?;
+    let mut r = BackReader::new(src).ok_or("huffman stream without end mark")?;
+    let mut out = Vec::with_capacity(count);
+    for _ in 0..count {
+        let (s, n) = t[r.peek(max_bits as u32) as usize];
+        r.get(n as u32);
+        if r.pos < 0 {
+            return Err("huffman stream too short for its literal count".into());
+        }
+        out.push(s);
+    }
+    if r.pos != 0 {
+        return Err(format!("huffman stream has {} unused bits", r.pos));
+    }
+    Ok(out)
+}
+
+/// Direct description: header byte 127+n, then n weights as nibbles (first weight in the high nibble).
 pub fn describe_direct(head: &[u8]) -> Vec<u8> {
     assert!(!head.is_empty() && head.len() <= 128);
     let mut v = vec![127 + head.len() as u8];
-    for ch in head.chunks(2) { v.push((ch[0] << 4) | ch.get(1).copied().unwrap_or(0)); }
+    for ch in head.chunks(2) {
+        v.push((ch[0] << 4) | ch.get(1).copied().unwrap_or(0));
+    }
     v
 }
 
-/// FSE-compressed description: header byte = size, FSE table description (log<=6), two interleaved states.
-pub fn describe_fse(head: &[u8], dist: &[i16], log: u8) -> Vec<u8> {
-    assert!(head.len() >= 2);
-    let t = fse::build(dist, log); let enc = fse::Enc::new(&t);
-    // decoder: state1 init, state2 init; loop: emit s1 sym, update s1; (stop if overflow -> emit s2); emit s2 sym, update s2; ...
-    // symbols at even index come from state1, odd index from state2. Final two symbols are the states' symbols without update.
+/// FSE-compressed description: header byte = size, FSE table description (log <= 6), two interleaved
+/// states. None if the sequence cannot be terminated unambiguously with this table (the state of the
+/// second-to-last weight must read at least one bit) or does not fit 127 bytes.
+pub fn describe_fse(head: &[u8], dist: &[i16], log: u8) -> Option<Vec<u8>> {
+    if head.len() < 2 {
+        return None;
+    }
+    let t = fse::build(dist, log);
+    let enc = fse::Enc::new(&t);
+    if head.iter().any(|&w| !enc.has(w)) {
+        return None;
+    }
     let n = head.len();
-    // per chain, compute states backwards
-    let mut st = vec![0usize; n]; let mut tr = vec![(0u64, 0u32); n];
-    for chain in 0..2 { let idxs: Vec<usize> = (chain..n).step_by(2).collect(); let last = *idxs.last().unwrap(); st[last] = enc.state_for(head[last], 0);
-        for w in idxs.windows(2).rev() { let (s, v, nb) = enc.prev_state(head[w[0]], st[w[1]]); st[w[0]] = s; tr[w[0]] = (v, nb); } }
-    let mut b = BackBits::new(); b.push(st[0] as u64, log as u32); b.push(st[1] as u64, log as u32);
-    // updates happen in symbol order for all but the last two symbols
-    for i in 0..n - 2 { b.push(tr[i].0, tr[i].1); }
-    let mut body = fse::describe(dist, log); body.extend(b.finish());
-    assert!(body.len() < 128);
-    let mut v = vec![body.len() as u8]; v.extend(body); v
+    // symbols at even index come from state 1, odd from state 2; the last two symbols are peeked, and the
+    // decoder notices the end when the update after symbol n-2 runs past the start of the stream
+    let mut st = vec![0usize; n];
+    let mut tr = vec![(0u64, 0u32); n];
+    st[n - 1] = enc.state_for(head[n - 1], 0);
+    st[n - 2] = enc.state_with_bits(head[n - 2])?;
+    for i in (0..n - 2).rev() {
+        let (s, v, nb) = enc.prev_state(head[i], st[i + 2]);
+        st[i] = s;
+        tr[i] = (v, nb);
+    }
+    let mut b = BackBits::new();
+    b.push(st[0] as u64, log as u32);
+    b.push(st[1] as u64, log as u32);
+    for t in tr.iter().take(n - 2) {
+        b.push(t.0, t.1);
+    }
+    let mut body = fse::describe(dist, log);
+    body.extend(b.finish());
+    if body.len() >= 128 {
+        return None;
+    }
+    let mut v = vec![body.len() as u8];
+    v.extend(body);
+    Some(v)
+}
+
+/// Strict parser of a weight description: (weights without the implied one, bytes used).
+pub fn parse_description(src: &[u8]) -> Result<(Vec<u8>, usize), String> {
+    let h = *src.first().ok_or("empty huffman description")? as usize;
+    if h >= 128 {
+        let n = h - 127;
+        let need = n.div_ceil(2);
+        if src.len() < 1 + need {
+            return Err("direct weights truncated".into());
+        }
+        let mut w = Vec::with_capacity(n);
+        for i in 0..n {
+            let b = src[1 + i / 2];
+            w.push(if i % 2 == 0 { b >> 4 } else { b & 15 });
+        }
+        Ok((w, 1 + need))
+    } else {
+        if src.len() < 1 + h {
+            return Err("fse weights truncated".into());
+        }
+        let body = &src[1..1 + h];
+        let (log, dist, used) = fse::parse_description(body, 6, 255).map_err(|e| format!("weights fse table: {e:?}"))?;
+        if used > h {
+            return Err("fse table description longer than the weights field".into());
+        }
+        let t = fse::build(&dist, log);
+        let mut r = BackReader::new(&body[used..]).ok_or("weights stream without end mark")?;
+        let mut s1 = r.get(log as u32) as usize;
+        let mut s2 = r.get(log as u32) as usize;
+        if r.pos < 0 {
+            return Err("weights stream shorter than two states".into());
+        }
+        let mut w = vec![];
+        loop {
+            let e = &t.entries[s1];
+            w.push(e.sym);
+            s1 = e.base as usize + r.get(e.nbits as u32) as usize;
+            if r.pos < 0 {
+                w.push(t.entries[s2].sym);
+                break;
+            }
+            let e = &t.entries[s2];
+            w.push(e.sym);
+            s2 = e.base as usize + r.get(e.nbits as u32) as usize;
+            if r.pos < 0 {
+                w.push(t.entries[s1].sym);
+                break;
+            }
+            if w.len() > 255 {
+                return Err("more than 255 weights".into());
+            }
+        }
+        if w.len() > 255 {
+            return Err("more than 255 weights".into());
+        }
+        Ok((w, 1 + h))
+    }
 }
